@@ -66,18 +66,26 @@ def check_tiling(ctx, kind, verts, faces, b, hs, desc):
     for lp in [fb] + fh:
         for i in range(len(lp)):
             in_edges.add(frozenset((lp[i - 1], lp[i])))
+    def edge_fault(kind_, msg):
+        # is the fault ONLY that some triangle edges pass through input vertices lying exactly on them?
+        tj = t_junction_only(directed, in_edges, inputs)
+        if tj:
+            ctx.violation(kind + ':t_junction', 'the triangles tile the shape exactly, but the triangle edge %s - %s passes through the input vertex %s '
+                          '(collinear with it): it is not shared edge-to-edge' % tuple(tuple(float(c) for c in x) for x in tj), desc)
+        else:
+            ctx.violation(kind_, msg, desc)
     for (p, q_), n in directed.items():
         und = frozenset((p, q_))
         rev = directed.get((q_, p), 0)
         if und in in_edges:
             if n + rev != 1:
-                ctx.violation(kind + ':input_edge_use', 'an input edge is used by %d triangles' % (n + rev), desc); return
+                edge_fault(kind + ':input_edge_use', 'an input edge is used by %d triangles' % (n + rev)); return
         elif n != 1 or rev != 1:
-            ctx.violation(kind + ':interior_edge_use', 'an interior edge is used %d+%d times' % (n, rev), desc); return
+            edge_fault(kind + ':interior_edge_use', 'an interior edge is used %d+%d times' % (n, rev)); return
     for e in in_edges:
         p, q_ = tuple(e)
         if directed.get((p, q_), 0) + directed.get((q_, p), 0) != 1:
-            ctx.violation(kind + ':input_edge_missing', 'an input edge is not an edge of exactly one triangle', desc); return
+            edge_fault(kind + ':input_edge_missing', 'an input edge is not an edge of exactly one triangle'); return
     # containment: every triangle centroid inside the region
     for f in faces:
         c = tuple(sum(fv[i][k] for i in f) / 3 for k in range(2))
@@ -85,9 +93,92 @@ def check_tiling(ctx, kind, verts, faces, b, hs, desc):
             ctx.violation(kind + ':outside', 'a triangle centroid lies outside the shape (or in a hole)', desc); return
 
 
+def t_junction_only(directed, in_edges, inputs):
+    """if the edge conditions fail ONLY because some triangle edges pass through input vertices lying exactly on them (and hold once
+    those edges are cut at these vertices), return one such (edge start, edge end, vertex); otherwise None"""
+    def between(a, b, r):
+        return r != a and r != b and X.orient(a, b, r) == 0 and min(a[0], b[0]) <= r[0] <= max(a[0], b[0]) and min(a[1], b[1]) <= r[1] <= max(a[1], b[1])
+    witness = None
+    refined = {}
+    for (a, b), n in directed.items():
+        mids = [r for r in inputs if between(a, b, r)]
+        if mids and witness is None:
+            witness = (a, b, mids[0])
+        chain = [a] + sorted(mids, key=lambda r: X.sqd(a, r)) + [b]
+        for u, v in zip(chain, chain[1:]):
+            refined[(u, v)] = refined.get((u, v), 0) + n
+    if witness is None:
+        return None
+    for (u, v), n in refined.items():
+        rev = refined.get((v, u), 0)
+        if frozenset((u, v)) in in_edges:
+            if n + rev != 1:
+                return None
+        elif n != 1 or rev != 1:
+            return None
+    for e in in_edges:
+        u, v = tuple(e)
+        if refined.get((u, v), 0) + refined.get((v, u), 0) != 1:
+            return None
+    return witness
+
+
+def grid_shape(rng):
+    """integer-coordinate star boundary with 2..5 integer star holes in separate cells (so vertices of different loops are often
+    exactly collinear or level with each other); certified exactly"""
+    for _ in range(50):
+        nb = rng.randint(10, 30)
+        def star(n, cx, cy, rmin, rmax):
+            pts = []
+            for k in range(n):
+                a = 2 * math.pi * (k + rng.uniform(-0.3, 0.3)) / n
+                r = rng.uniform(rmin, rmax)
+                pts.append((float(round(cx + r * math.cos(a))), float(round(cy + r * math.sin(a)))))
+            return pts
+        b = star(nb, 0, 0, 60, 100)
+        cells = [(i, j) for i in (-1, 0, 1) for j in (-1, 0, 1)]
+        rng.shuffle(cells)
+        hs = []
+        for (i, j) in cells[:rng.randint(2, 5)]:
+            h = star(rng.randint(3, 8), 24 * i, 24 * j, 3, 10)
+            if rng.random() < 0.5:
+                h.reverse()
+            hs.append(h)
+        loops = [b] + hs
+        ok = all(G.certify_polygon(l) for l in loops)
+        ok = ok and all(X.orient(X.fpt(l[i - 2]), X.fpt(l[i - 1]), X.fpt(l[i])) != 0 for l in loops for i in range(len(l)))
+        if not ok:
+            continue
+        fb = [X.fpt(q_) for q_ in b]
+        if not all(X.winding_inside(fb, X.fpt(q_)) is True for h in hs for q_ in h):
+            continue
+        if any(X.segs_intersect(X.fpt(h[i - 1]), X.fpt(h[i]), fb[j - 1], fb[j]) for h in hs for i in range(len(h)) for j in range(len(fb))):
+            continue
+        boxes = [(min(q_[0] for q_ in h), max(q_[0] for q_ in h), min(q_[1] for q_ in h), max(q_[1] for q_ in h)) for h in hs]
+        if any(not (a[1] < c[0] or c[1] < a[0] or a[3] < c[2] or c[3] < a[2]) for i, a in enumerate(boxes) for c in boxes[i + 1:]):
+            continue
+        if rng.random() < 0.5:
+            b = b[::-1]
+        return b, hs
+    return None
+
+
+def fam_grid_holes(ctx, rng):
+    g = grid_shape(rng)
+    if g is None:
+        return
+    b, hs = g
+    entry = rng.choice(['earcut', 'mesh2d', 'face3d'])
+    run_entry(ctx, 'grid', entry, b, hs)
+
+
 def fam_earcut(ctx, rng):
     fam, b, hs = make_shape(rng)
     entry = rng.choice(['earcut', 'mesh2d', 'face3d'])
+    run_entry(ctx, fam, entry, b, hs)
+
+
+def run_entry(ctx, fam, entry, b, hs):
     n = len(b) + sum(len(h) for h in hs)
     desc = {'family': fam, 'boundary': b, 'holes': hs, 'entry': entry}
     ctx.count('tri.%s.%s' % (entry, fam), key=(len(b), len(hs)), sample={'family': fam, 'n': len(b), 'holes': len(hs), 'entry': entry},
@@ -151,7 +242,7 @@ def fam_predicates(ctx, rng):
             ctx.violation('tri.pred:point_in_triangle', '_point_in_triangle=%r expected %r' % (inside, exp), dict(desc, p=p))
 
 
-FAMILIES = [(fam_earcut, 220), (fam_predicates, 200)]
+FAMILIES = [(fam_grid_holes, 40), (fam_earcut, 220), (fam_predicates, 200)]
 
 
 def explore(ctx):
@@ -162,6 +253,11 @@ def explore(ctx):
 
 def replay(ctx, data):
     kind = data.get('kind', '')
+    w = data.get('data') or data.get('witness') or {}
+    if isinstance(w, dict) and 'boundary' in w and 'entry' in w:
+        c2 = core.Ctx(ctx.pid, 'quick', 3)
+        run_entry(c2, 'grid', w['entry'], [tuple(p) for p in w['boundary']], [[tuple(p) for p in h] for h in w['holes']])
+        return any(v.kind == kind for v in c2.violations)
     c2 = core.Ctx(ctx.pid, 'quick', 3)
     for f, _ in FAMILIES:
         for _ in range(2500):
